@@ -429,7 +429,7 @@ func c01RunE2ECase(t testing.TB, e2 c01E2EIn, slow int) c01Obs {
 		ev(coqApp("Lookup", "0%N", coqBytes(bid.Digest), coqZ(st)))
 		ev(coqApp("Callback", "0%N"))
 		ev(coqApp("TakeDecision", "1%N", kterm))
-		ev(coqApp("StoreRes", "1%N", coqBool(e2.StoreOK)))
+		ev(coqApp("StoreRes", "1%N", coqBool(e2.StoreOK && e2.StoreMode == "")))
 		ev(coqApp("WriteRes", "1%N", "true"))
 	}
 	ev(coqApp("DeadlineFire", "1%N"))
@@ -983,12 +983,12 @@ func c01Coq(id int, in c01In, obs c01Obs) string {
 
 // ---- generators -------------------------------------------------------------------------------------------
 
-const c01Hex = "0123456789abcdef"
+const c01Hex = "0123456789abcdefABCDEF" // both cases: the format rule allows them and the signature covers the exact spelling
 
 func c01Hash(r *rand.Rand) string {
 	b := make([]byte, 64)
 	for i := range b {
-		b[i] = c01Hex[r.Intn(16)]
+		b[i] = c01Hex[r.Intn(len(c01Hex))]
 	}
 	return string(b)
 }
@@ -1119,20 +1119,29 @@ func c01Generate(r *rand.Rand, class string) c01In {
 }
 
 // the end-to-end matrix {role} x {allowance} x {engine} x {store}
-func c01E2EJobs(r *rand.Rand, tier string, quick int) []c01In {
-	mk := func(role string, allow bool, engine string, store bool) c01In {
-		return c01In{E2E: &c01E2EIn{Role: role, Allow: allow, Engine: engine, StoreOK: store, Bid: c01GoodBid(r)}}
+func c01E2EJobs(r *rand.Rand, tier string, quick int, c07 bool) []c01In {
+	mk := func(role string, allow bool, engine string, store string) c01In {
+		e := &c01E2EIn{Role: role, Allow: allow, Engine: engine, StoreOK: store == "ok", Bid: c01GoodBid(r)}
+		if store == "http503" || store == "close" {
+			e.StoreMode = store
+		}
+		return c01In{E2E: e}
 	}
 	if tier != "thorough" {
-		// accepted path (wrong commitment store shows), rejecting engine (auto-accepting processor shows),
-		// provider-role sender (missing role check shows)
-		return []c01In{mk("bidder", true, "accept", true), mk("bidder", true, "reject", true), mk("provider", true, "accept", true)}[:quick]
+		if c07 {
+			// accepted path (wrong commitment store shows); submission failing at the transport level (HTTP 503,
+			// connection closed): only the production assembly (real ethclient adapter) is on that path
+			return []c01In{mk("bidder", true, "accept", "ok"), mk("bidder", true, "accept", "http503"),
+				mk("bidder", true, "accept", "close")}[:quick]
+		}
+		// accepted path, rejecting engine (auto-accepting processor shows), provider-role sender (missing role check shows)
+		return []c01In{mk("bidder", true, "accept", "ok"), mk("bidder", true, "reject", "ok"), mk("provider", true, "accept", "ok")}[:quick]
 	}
 	out := []c01In{}
 	for _, role := range []string{"bidder", "provider"} {
 		for _, allow := range []bool{true, false} {
 			for _, engine := range []string{"accept", "reject", "silent"} {
-				for _, store := range []bool{true, false} {
+				for _, store := range []string{"ok", "rpc-error", "http503", "close"} {
 					out = append(out, mk(role, allow, engine, store))
 				}
 			}
@@ -1141,7 +1150,7 @@ func c01E2EJobs(r *rand.Rand, tier string, quick int) []c01In {
 	return out
 }
 
-func c01Main(t *testing.T, classes []string, reps int, timed int, e2e int) {
+func c01Main(t *testing.T, classes []string, reps int, timed int, e2e int, c07 bool) {
 	e := vfOpen(t, 20)
 	defer e.Close()
 	var emu sync.Mutex
@@ -1161,7 +1170,7 @@ func c01Main(t *testing.T, classes []string, reps int, timed int, e2e int) {
 		// end-to-end cases (about 10 s each, node.NewNode dials its own gRPC server with two failing TLS
 		// strategies first) and the true-deadline cases (6-8 s each) start first and overlap with all the others
 		if e2e > 0 {
-			for _, in := range c01E2EJobs(e.rng, e.Tier, e2e) {
+			for _, in := range c01E2EJobs(e.rng, e.Tier, e2e, c07) {
 				jobs = append(jobs, job{"e2e-node", in})
 			}
 		}
@@ -1216,9 +1225,9 @@ func c01Main(t *testing.T, classes []string, reps int, timed int, e2e int) {
 
 func TestVerifC01(t *testing.T) {
 	c01Main(t, []string{"accepted", "raw-v", "role", "tamper", "tamper", "allowance", "peer-funded", "signer-funded", "format", "format", "read", "engine", "engine",
-		"engine", "store", "write", "signer", "concurrent-store", "matrix", "matrix", "matrix"}, 1, map[bool]int{true: 4, false: 1}[os.Getenv("VERIF_TIER") == "thorough"], 3)
+		"engine", "store", "write", "signer", "concurrent-store", "matrix", "matrix", "matrix"}, 1, map[bool]int{true: 4, false: 1}[os.Getenv("VERIF_TIER") == "thorough"], 3, false)
 }
 
 func TestVerifC07(t *testing.T) {
-	c01Main(t, []string{"accepted", "accepted", "raw-v", "raw-v", "concurrent-store", "concurrent-store", "store", "write", "engine", "matrix"}, 2, 0, 1)
+	c01Main(t, []string{"accepted", "accepted", "raw-v", "raw-v", "concurrent-store", "concurrent-store", "store", "write", "engine", "matrix"}, 2, 0, 3, true)
 }
